@@ -5,6 +5,7 @@ import vlib
 
 SCRIPT = [7, 8, 7, 7, 8, 7]          # 7 matches `when`, 8 does not
 N = 2                                 # the call budget of `times`
+BURST_N, BURST_T, BURST_CALLS = 5000, 8, 1000     # second phase: budget, threads, calls per thread
 
 def program(a):
     quals = ("unsafe " if a["m_unsafe"] else "") + (f'extern "{a["m_abi"]}" ' if a["m_abi"] else "")
@@ -19,6 +20,28 @@ def program(a):
     body = "{ std::hint::black_box((a, b)); }" if a["m_unit"] else "{ std::hint::black_box(b); 100 + a }"
     val = '"-".to_string()' if a["m_unit"] else "v.to_string()"
     optstr = "".join(",\n        " + o for o in opts)
+    # second phase (arms with a call budget whose ABI can unwind): a SECOND call site of the same arm with a large budget, hit by
+    # BURST_T threads at once: the budget must be exact under concurrency (one atomic read-modify-write per call)
+    burst = bool(a["times"]) and not a["m_abi"]
+    optstr2 = "".join(",\n        " + (o if not o.startswith("times:") else f"times: {BURST_N}") for o in opts)
+    phase2 = "" if not burst else f'''
+    {{
+        let mut inj = InjectorPP::new();
+        inj.when_called(injectorpp::func!(target, {ty})).will_execute(injectorpp::fake!(
+            func_type: {quals}fn(a: u64, b: u64) -> {R}{optstr2}
+        ));
+        let gate = std::sync::Arc::new(AtomicUsize::new(0));
+        let hs: Vec<_> = (0..{BURST_T}).map(|_| {{ let g = gate.clone(); std::thread::spawn(move || {{
+            let mut r = (0usize, 0usize, 0usize);
+            g.fetch_add(1, SeqCst); while g.load(SeqCst) < {BURST_T} {{ std::hint::spin_loop(); }}
+            for _ in 0..{BURST_CALLS} {{ match catch_unwind(|| call(7)) {{ Ok(_) => r.0 += 1, Err(e) => if class(&msg(&e)) == "over" {{ r.1 += 1 }} else {{ r.2 += 1 }} }} }}
+            r }}) }}).collect();
+        let mut t = (0, 0, 0);
+        for h in hs {{ let r = h.join().unwrap(); t = (t.0 + r.0, t.1 + r.1, t.2 + r.2); }}
+        println!("BURST admitted={{}} over={{}} other={{}}", t.0, t.1, t.2);
+        let r = catch_unwind(AssertUnwindSafe(move || drop(inj)));
+        println!("BURSTEXIT {{}}", match r {{ Ok(()) => "normal".to_string(), Err(e) => {{ let m = msg(&e); format!("{{}} {{}}", class(&m), m.split(|c: char| !c.is_ascii_digit()).filter(|x| !x.is_empty()).collect::<Vec<_>>().join(":")) }} }});
+    }}'''
     return f'''// arm {a["index"]}: {ty} ; options: {", ".join(o.split(":")[0] for o in opts) or "none"}
 #![allow(unused)]
 use injectorpp::interface::injector::*;
@@ -55,7 +78,7 @@ fn main() {{
     let r = catch_unwind(AssertUnwindSafe(move || drop(inj)));
     println!("EXIT {{}}", match r {{ Ok(()) => "normal".to_string(), Err(e) => class(&msg(&e)).to_string() }});
     let after = catch_unwind(|| call(7));
-    println!("AFTER {{}}", if after.is_ok() {{ "original" }} else {{ "panics" }});
+    println!("AFTER {{}}", if after.is_ok() {{ "original" }} else {{ "panics" }});{phase2}
 }}
 '''
 
